@@ -299,7 +299,13 @@ func (o *c11Obj) readAt(b []byte, off int64) (int, error) {
 	return n, nil
 }
 
+// c11WriteDelay: every WriteAt of the instrumented backend takes this long (set by c07's pipewrite cases: a slow backend)
+var c11WriteDelay time.Duration
+
 func (o *c11Obj) writeAt(b []byte, off int64) (int, error) {
+	if c11WriteDelay > 0 {
+		time.Sleep(c11WriteDelay)
+	}
 	o.fs.mu.Lock()
 	defer o.fs.mu.Unlock()
 	o.fs.calls++
@@ -1255,6 +1261,7 @@ func runC11(c *Ctx) {
 			}
 		}
 	}
+	c11SlowOpens(c, work)
 	keys := make([]string, 0, len(failCount))
 	for k := range failCount {
 		keys = append(keys, k)
@@ -1262,5 +1269,85 @@ func runC11(c *Ctx) {
 	sort.Strings(keys)
 	for _, k := range keys {
 		c.Diag("c11 failures %s: %d", k, failCount[k])
+	}
+}
+
+// c11SlowOpens (kind slowopen, os-backed server): the connection ends while an OPEN that the server has already received is
+// still inside os.OpenFile (a FIFO nobody has opened for writing yet). The open completes only after the receive loop is
+// gone. When Serve has returned, that file must be closed as well: the descriptor count is back at its baseline.
+func c11SlowOpens(c *Ctx, work string) {
+	old := debug.SetGCPercent(-1)
+	defer debug.SetGCPercent(old)
+	for i := 0; i < 6; i++ {
+		alloc := i%2 == 1
+		os.RemoveAll(work)
+		os.Mkdir(work, 0o755)
+		os.WriteFile(filepath.Join(work, "reg"), []byte("regular"), 0o644)
+		fifo := filepath.Join(work, "pipe")
+		if err := syscall.Mkfifo(fifo, 0o644); err != nil {
+			c.Diag("slowopen: mkfifo: %v", err)
+			return
+		}
+		base := c11CountFDs()
+		cli, ss := c11NewDuplex()
+		done, err := startServer(ss, pairOpt{alloc: alloc, workDir: work})
+		if err != nil {
+			c.Diag("slowopen: %v", err)
+			return
+		}
+		n := c.Case("slowopen", kvi("i", i), kvb("alloc", alloc), kvi("held", i/2))
+		c.NT(n)
+		c.Stat("slowopen_cases")
+		ok, why := true, ""
+		if r, err := cli.do(rawInit()); err != nil || r.Typ != fxpVersion {
+			ok, why = false, "harness: no VERSION"
+		}
+		for k := 0; ok && k < i/2; k++ { // some ordinary handles left open as well
+			if r, err := cli.do(rawOpen(uint32(10+k), "reg", 1, 0, nil)); err != nil || r.Typ != fxpHandle {
+				ok, why = false, "harness: OPEN of a regular file was not answered with a handle"
+			}
+		}
+		if ok {
+			cli.w.SetWriteDeadline(time.Now().Add(5 * time.Second))
+			if _, err := cli.w.Write(rawOpen(99, "pipe", 1, 0, nil)); err != nil {
+				ok, why = false, "harness: cannot send the OPEN of the FIFO"
+			}
+		}
+		time.Sleep(30 * time.Millisecond) // the worker is inside os.OpenFile now
+		cli.closeAll()                    // the connection ends
+		time.Sleep(60 * time.Millisecond) // the receive loop has noticed
+		// let the open complete: open the other end of the FIFO, then close it again
+		if w, err := os.OpenFile(fifo, os.O_WRONLY|syscall.O_NONBLOCK, 0); err == nil {
+			w.Close()
+		} else if ok {
+			// nobody is reading yet (ENXIO): the server never got as far as opening it; open it blocking, with a watchdog
+			opened := make(chan struct{})
+			go func() {
+				if w, err := os.OpenFile(fifo, os.O_WRONLY, 0); err == nil {
+					w.Close()
+				}
+				close(opened)
+			}()
+			select {
+			case <-opened:
+			case <-time.After(3 * time.Second):
+				// unblock our own opener by opening the read end ourselves
+				if r, err := os.OpenFile(fifo, os.O_RDONLY|syscall.O_NONBLOCK, 0); err == nil {
+					<-opened
+					r.Close()
+				}
+			}
+		}
+		select {
+		case <-done:
+		case <-time.After(5 * time.Second):
+			if ok {
+				ok, why = false, "server-hang: Serve did not return within 5 s of the end of the connection"
+			}
+		}
+		if got := c11SettleFDs(base); ok && got != base {
+			ok, why = false, fmt.Sprintf("fd-leak: %d descriptors are open after Serve returned, %d before the session (an OPEN was still in progress when the connection ended)", got, base)
+		}
+		c.Oracle(n, ok, why)
 	}
 }
